@@ -168,6 +168,13 @@ func Universe(size string) []SnapVariant {
 			stack.Stack{Calls: []stack.Call{MkCall("main.spawnA", "/other/checkout/src/app/spawn.go", 30, 0, stack.Args{})}},
 		)
 	}
+	// go1.21+ creator lines ("created by f in goroutine N"): the same function started by two parents from two
+	// different lines - the parent id must not make the creator's position irrelevant
+	inIdx := len(creators)
+	creators = append(creators,
+		stack.Stack{Calls: []stack.Call{MkCall("main.spawnA in goroutine 7", "/src/app/spawn.go", 30, 0, stack.Args{})}},
+		stack.Stack{Calls: []stack.Call{MkCall("main.spawnA in goroutine 8", "/src/app/spawn.go", 31, 0, stack.Args{})}},
+	)
 	stacks := stackVariants(full)
 	var out []SnapVariant
 	for si, st := range states {
@@ -184,8 +191,8 @@ func Universe(size string) []SnapVariant {
 								continue
 							}
 						}
-						if (ci == 3 || ci == 4) && !(si == 0 && li == 0 && sli == 0) {
-							continue // the multi-call creators only with the base state/lock/sleep (every size)
+						if (ci == 3 || ci == 4 || ci >= inIdx) && !(si == 0 && li == 0 && sli == 0) {
+							continue // the multi-call and the go1.21-style creators only with the base state/lock/sleep (every size)
 						}
 						if (sl == 3 || (sl == 90 && !full)) && !(si == 0 && li == 0 && ci == 0 && ki < 2) {
 							continue
